@@ -4,6 +4,7 @@ import functools
 import logging
 import numbers
 import operator
+from contextlib import suppress
 from functools import reduce
 
 import claripy
@@ -15,7 +16,7 @@ from claripy.backends.backend_vsa.errors import ClaripyVSAError
 from claripy.errors import BackendError
 from claripy.operations import backend_operations_vsa_compliant, expression_set_operations
 
-from .bool_result import BoolResult, FalseResult, TrueResult
+from .bool_result import BoolResult, FalseResult, MaybeResult, TrueResult
 from .discrete_strided_interval_set import DiscreteStridedIntervalSet
 from .strided_interval import StridedInterval
 from .valueset import ValueSet
@@ -76,6 +77,33 @@ class BackendVSA(Backend):
         self._op_raw["__xor__"] = self._op_xor
         self._op_raw["__and__"] = self._op_and
         self._op_raw["__mod__"] = self._op_mod
+
+        # Boolean operands: BoolResult.__eq__ is Python equality of the abstract values, not the abstract value of the
+        # comparison
+        self._op_raw["__eq__"] = self._op_eq
+        self._op_raw["__ne__"] = self._op_ne
+
+    @staticmethod
+    def _op_eq(a, b):
+        if isinstance(a, BoolResult | bool) and isinstance(b, BoolResult | bool):
+            if (BoolResult.is_true(a) and BoolResult.is_true(b)) or (BoolResult.is_false(a) and BoolResult.is_false(b)):
+                return TrueResult()
+            if (BoolResult.is_true(a) and BoolResult.is_false(b)) or (BoolResult.is_false(a) and BoolResult.is_true(b)):
+                return FalseResult()
+            return MaybeResult()
+        obj = NotImplemented
+        with suppress(TypeError, ValueError):
+            obj = operator.__eq__(a, b)
+        return obj
+
+    @staticmethod
+    def _op_ne(a, b):
+        if isinstance(a, BoolResult | bool) and isinstance(b, BoolResult | bool):
+            return ~BackendVSA._op_eq(a, b)
+        obj = NotImplemented
+        with suppress(TypeError, ValueError):
+            obj = operator.__ne__(a, b)
+        return obj
 
     @staticmethod
     def _op_add(*args):
